@@ -543,3 +543,67 @@ Section Chain.
       destruct (chain_sound bs Hok 0 y Hy) as (e' & He' & Hv' & _ & [-> | ->]); cbn in Hky; apply (Hno e' He'); auto.
   Qed.
 End Chain.
+
+(* ---------------------------------------------------------------- SinceTs is strict; Load *)
+Theorem backup_since_strict m r since now ks :
+  view_ok m -> no_empty_key m -> splits_ok [] ks = true ->
+  (forall x, In x (fst (backup_of m r since now ks)) ->
+     exists e, In e m /\ (x = bk_entry now e \/ x = synth_delete e)
+               /\ e_ver e <= r /\ (since = 0 \/ since < e_ver e))
+  /\ (forall e, In e m -> is_prefix c_badgerPrefix (e_key e) = false ->
+        since < e_ver e -> e_ver e <= r ->
+        (forall e', In e' m -> e_key e' = e_key e -> e_ver e' <= r -> e_ver e' <= e_ver e) ->
+        In (bk_entry now e) (fst (backup_of m r since now ks))).
+Proof.
+  intros Hm Hne Hok. rewrite (backup_of_pass m r since now ks Hm Hne Hok). split.
+  - intros x Hx. destruct (backup_sound since now r m Hm Hne x Hx) as (e & He & Hsh & Hxe).
+    apply shown_vers in Hsh. exists e. repeat split; auto; tauto.
+  - intros e He Hint Hs Hr Hmax. apply (backup_newest since now r m Hm Hne e He).
+    + unfold shown, skip_common, is_internal. rewrite Hint. cbn.
+      assert (E1: (r <? e_ver e) = false) by (apply N.ltb_ge; lia).
+      assert (E2: (e_ver e <=? since) = false) by (apply N.leb_gt; lia).
+      rewrite E1, E2. now rewrite andb_false_r.
+    + intros e' He' Hsh' Hk'. apply shown_vers in Hsh'. apply Hmax; auto. lia.
+Qed.
+
+Theorem backup_retained m r since now ks k :
+  view_ok m -> no_empty_key m -> splits_ok [] ks = true ->
+  filter (key_is k) (fst (backup_of m r since now ks))
+  = expand now (cut (marker now) (shown_versions m k since r)).
+Proof.
+  intros Hm Hne Hok. rewrite (backup_of_pass m r since now ks Hm Hne Hok).
+  apply (backup_per_key since now (fun _ => false) r m Hm Hne k).
+Qed.
+
+Lemma backup_ret_spec m r since now ks :
+  view_ok m -> no_empty_key m -> Forall (fun e => 0 < e_ver e) m -> splits_ok [] ks = true ->
+  snd (backup_of m r since now ks) <= r
+  /\ forall x, In x (fst (backup_of m r since now ks)) -> e_ver x <= snd (backup_of m r since now ks).
+Proof.
+  intros Hm Hne Hp Hok. pose proof (backup_of_pass m r since now ks Hm Hne Hok) as E.
+  unfold backup_of in *. cbn [fst snd] in *. rewrite E. split.
+  - apply backup_ret_le; auto.
+  - intros x Hx. now apply max_ver_ge.
+Qed.
+
+Lemma load_writes s kvs : s_writes (load s kvs) = s_writes s ++ kvs.
+Proof. reflexivity. Qed.
+
+Lemma load_db s kvs : s_db (load s kvs) = apply_entries (s_db s) kvs.
+Proof. reflexivity. Qed.
+
+Lemma fold_load_next l : Forall (fun e => e_ver e < max_u64) l -> forall n,
+  n <= fold_left load_next l n /\ forall e, In e l -> e_ver e < fold_left load_next l n.
+Proof.
+  induction 1 as [|e l He _ IH]; intros n; cbn [fold_left]; [split; [lia|contradiction]|].
+  assert (Hn: n <= load_next n e /\ e_ver e < load_next n e).
+  { unfold load_next. destruct (n <=? e_ver e) eqn:E.
+    - apply N.leb_le in E. rewrite N.mod_small; [lia|]. unfold max_u64, two64 in *. lia.
+    - apply N.leb_gt in E. lia. }
+  destruct (IH (load_next n e)) as (H1 & H2). split; [lia|].
+  intros x [<-|Hx]; [lia|auto].
+Qed.
+
+Theorem load_next_above s kvs : Forall (fun e => e_ver e < max_u64) kvs ->
+  s_next s <= s_next (load s kvs) /\ forall e, In e kvs -> e_ver e < s_next (load s kvs).
+Proof. intros H. cbn [load s_next]. now apply fold_load_next. Qed.
